@@ -12,6 +12,7 @@ package modx
 
 import (
 	"bufio"
+	"context"
 	"crypto/ecdsa"
 	"crypto/elliptic"
 	"crypto/rand"
@@ -27,6 +28,7 @@ import (
 	"net/http"
 	"net/http/httputil"
 	"net/textproto"
+	"runtime"
 	"strconv"
 	"strings"
 	"sync"
@@ -135,6 +137,7 @@ type SrvConn struct {
 	net.Conn
 	N         int
 	rdStarted int64
+	rdDone    int64
 	rdBytes   int64
 	wrBytes   int64
 	wrCalls   int64
@@ -146,7 +149,15 @@ func (c *SrvConn) Read(p []byte) (int, error) {
 	atomic.AddInt64(&c.rdStarted, 1)
 	n, err := c.Conn.Read(p)
 	atomic.AddInt64(&c.rdBytes, int64(n))
+	atomic.AddInt64(&c.rdDone, 1)
 	return n, err
+}
+
+// RdPending is the number of Read calls of the proxy side that are blocked in
+// the socket right now.
+func (c *SrvConn) RdPending() int64 {
+	d := atomic.LoadInt64(&c.rdDone)
+	return atomic.LoadInt64(&c.rdStarted) - d
 }
 
 func (c *SrvConn) Write(p []byte) (int, error) {
@@ -336,9 +347,10 @@ type Origin struct {
 	mu        sync.Mutex
 	arrivals  []Arrival
 	dials     []DialEv
-	dialFail  map[string]bool // host -> refuse
-	drop      map[string]bool // xid -> close without answering
-	plain     map[string]bool // host -> answer a TLS ClientHello with plain bytes and close
+	dialFail  map[string]bool          // host -> refuse
+	drop      map[string]bool          // xid -> close without answering
+	plain     map[string]bool          // host -> answer a TLS ClientHello with plain bytes and close
+	delay     map[string]time.Duration // xid -> wait at least this long before answering
 	plainHits int64
 	conns     map[string][]*vh.PipeConn
 	cleartext int64 // connections whose first byte was not a TLS handshake
@@ -348,7 +360,7 @@ type Origin struct {
 
 // NewOrigin creates an origin.
 func NewOrigin(ca *CA) *Origin {
-	return &Origin{ca: ca, dialFail: map[string]bool{}, drop: map[string]bool{}, plain: map[string]bool{}, conns: map[string][]*vh.PipeConn{}}
+	return &Origin{ca: ca, dialFail: map[string]bool{}, drop: map[string]bool{}, plain: map[string]bool{}, delay: map[string]time.Duration{}, conns: map[string][]*vh.PipeConn{}}
 }
 
 // SetDialFail makes dials to host (no port) fail.
@@ -362,6 +374,13 @@ func (o *Origin) SetDialFail(host string) {
 func (o *Origin) SetDrop(xid string) {
 	o.mu.Lock()
 	o.drop[xid] = true
+	o.mu.Unlock()
+}
+
+// SetDelay makes the origin wait at least d before answering xid.
+func (o *Origin) SetDelay(xid string, d time.Duration) {
+	o.mu.Lock()
+	o.delay[xid] = d
 	o.mu.Unlock()
 }
 
@@ -455,9 +474,13 @@ func (o *Origin) serve(c *vh.PipeConn, addr string) {
 		o.mu.Lock()
 		o.arrivals = append(o.arrivals, a)
 		drop := o.drop[xid]
+		wait := o.delay[xid]
 		o.mu.Unlock()
 		if drop {
 			return
+		}
+		if wait > 0 {
+			time.Sleep(wait)
 		}
 		payload := "origin " + xid + " " + strconv.Itoa(len(body)) + "\n"
 		t := "0"
@@ -531,7 +554,10 @@ type Action struct {
 	// "multi" a martian.MultiError of two errors (its text has a line break, as
 	// an aggregating fifo.Group produces); "quoted" a text with double quotes,
 	// a backslash and a tab.
-	ErrKind  string
+	ErrKind string
+	// API marks the exchange as a request to the proxy's API (Context.APIRequest)
+	// in the request modifier, as api.Forwarder does.
+	API      bool
 	Srv      *SrvConn      // proxy-side socket of the connection carrying the exchange
 	Returned chan struct{} // closed when the hijacking modifier call has returned
 	retOnce  sync.Once
@@ -623,6 +649,19 @@ func (rc *Recorder) Calls() []Call {
 		out[i] = *c
 	}
 	return out
+}
+
+// ReqOf returns the request pointer the request modifier saw for xid (nil if
+// the modifier has not been called for it).
+func (rc *Recorder) ReqOf(xid string) *http.Request {
+	rc.mu.Lock()
+	defer rc.mu.Unlock()
+	for _, c := range rc.calls {
+		if c.XID == xid && c.Side == "req" {
+			return c.Req
+		}
+	}
+	return nil
 }
 
 // Len is the number of calls recorded.
@@ -724,6 +763,9 @@ func (rc *Recorder) ModifyRequest(req *http.Request) error {
 		if a.Skip && c.Ctx != nil {
 			c.Ctx.SkipRoundTrip()
 		}
+		if a.API && c.Ctx != nil {
+			c.Ctx.APIRequest()
+		}
 		if a.ReqErr {
 			err = ModErr("req", c.XID, a.ErrKind)
 		}
@@ -777,6 +819,12 @@ func ModErr(side, xid, kind string) error {
 		return me
 	case "quoted":
 		return errors.New(base + " said \"quoted-part\" back\\slash\ttab-part")
+	case "eof": // errors a modifier that reads a message body can legitimately return
+		return io.EOF
+	case "closedpipe":
+		return io.ErrClosedPipe
+	case "timeout":
+		return context.DeadlineExceeded // a net.Error whose Timeout() is true
 	}
 	return errors.New(base)
 }
@@ -790,6 +838,12 @@ func ErrTokens(side, xid, kind string) []string {
 		return []string{base, "first-part", base, "second-part"}
 	case "quoted":
 		return []string{base, "quoted-part", "back", "slash", "tab-part"}
+	case "eof":
+		return []string{"EOF"}
+	case "closedpipe":
+		return []string{"closed", "pipe"}
+	case "timeout":
+		return []string{"deadline", "exceeded"}
 	}
 	return []string{base}
 }
@@ -953,6 +1007,7 @@ type Client struct {
 	w   io.Writer
 	BR  *bufio.Reader
 	mu  sync.Mutex
+	cnt *cntConn
 }
 
 // Dial connects a client to the rig's listener.
@@ -961,7 +1016,86 @@ func (g *Rig) Dial() (*Client, error) {
 	if err != nil {
 		return nil, err
 	}
-	return &Client{Raw: c, Srv: sc, w: c, BR: bufio.NewReader(c)}, nil
+	cc := &cntConn{Conn: c}
+	return &Client{Raw: cc, Srv: sc, w: cc, BR: bufio.NewReader(cc), cnt: cc}, nil
+}
+
+// cntConn counts the raw bytes the client wrote to the socket.
+type cntConn struct {
+	net.Conn
+	wr int64
+}
+
+func (c *cntConn) Write(p []byte) (int, error) {
+	n, err := c.Conn.Write(p)
+	atomic.AddInt64(&c.wr, int64(n))
+	return n, err
+}
+
+// SentRaw is the number of raw bytes the client has written to the socket.
+func (c *Client) SentRaw() int64 { return atomic.LoadInt64(&c.cnt.wr) }
+
+// AwaitIdle waits until the proxy has consumed everything the client sent and
+// is blocked in a Read on the socket, i.e. is waiting for the next request.
+// It returns false if the proxy closed the socket or the watchdog fired.
+func (c *Client) AwaitIdle() bool {
+	deadline := time.Now().Add(Watchdog)
+	for i := 0; ; i++ {
+		if c.Srv.Closed() {
+			return false
+		}
+		if c.Srv.RdPending() > 0 && c.Srv.RdBytes() == c.SentRaw() {
+			return true
+		}
+		if time.Now().After(deadline) {
+			return false
+		}
+		if i < 100 {
+			runtime.Gosched()
+		} else {
+			time.Sleep(50 * time.Microsecond)
+		}
+	}
+}
+
+// FailHandshake sends something that starts like a TLS handshake (first byte
+// 22) but that the proxy's TLS server must refuse, consumes the alert the
+// server answers with, and leaves the connection usable for cleartext.
+// kind "garbage": one handshake record with a nonsensical body; kind "tls10":
+// a real ClientHello that offers TLS 1.0 only.
+func (c *Client) FailHandshake(kind, serverName string) error {
+	c.Raw.SetDeadline(time.Now().Add(Watchdog))
+	defer c.Raw.SetDeadline(time.Time{})
+	switch kind {
+	case "garbage":
+		if _, err := c.Raw.Write([]byte{22, 3, 1, 0, 8, 0xff, 0xff, 0xff, 0xff, 1, 2, 3, 4}); err != nil {
+			return err
+		}
+		// the server's alert record: 5-byte header + body
+		hdr := make([]byte, 5)
+		if _, err := io.ReadFull(c.BR, hdr); err != nil {
+			return fmt.Errorf("reading the alert: %v", err)
+		}
+		if hdr[0] != 21 {
+			return fmt.Errorf("expected a TLS alert record, got type %d", hdr[0])
+		}
+		body := make([]byte, int(hdr[3])<<8|int(hdr[4]))
+		if _, err := io.ReadFull(c.BR, body); err != nil {
+			return fmt.Errorf("reading the alert: %v", err)
+		}
+		return nil
+	case "tls10":
+		tc := tls.Client(c.Raw, &tls.Config{ServerName: serverName, InsecureSkipVerify: true, MinVersion: tls.VersionTLS10, MaxVersion: tls.VersionTLS10})
+		err := tc.Handshake()
+		if err == nil {
+			return errors.New("the proxy accepted a TLS 1.0 handshake")
+		}
+		if IsWatchdog(err) {
+			return err
+		}
+		return nil
+	}
+	return errors.New("unknown kind")
 }
 
 func (c *Client) armR() { c.Raw.SetReadDeadline(time.Now().Add(Watchdog)) }
